@@ -113,8 +113,8 @@ package raft
 //@   requires RaftWF(r)
 //@   modifies r.state, r.storage.term, r.storage.votedFor, r.storage.termVal.v1, r.storage.termVal.v2, fs
 //@   maypanic OpError
-//@   ensures [C05.granted-is-recorded] result0 == success ==> r.term == req.term && r.votedFor == req.src
-//@   ensures [C05.durable-before-reply] result0 == success ==> DurableIs(r.storage, req.term, req.src)
+//@   ensures [C05+C01.granted-is-recorded] result0 == success ==> r.term == req.term && r.votedFor == req.src
+//@   ensures [C05+C01.durable-before-reply] result0 == success ==> DurableIs(r.storage, req.term, req.src)
 //@   ensures [C01.vote-unique] result0 == success && r.term == old(r.term) ==> old(r.votedFor) == 0 || old(r.votedFor) == req.src
 //@   ensures [C05.term-monotone] r.term >= old(r.term) && (r.term == old(r.term) || r.term == req.term)
 //@   ensures [C05.vote-sticky] r.term == old(r.term) && old(r.votedFor) != 0 ==> r.votedFor == old(r.votedFor)
